@@ -140,6 +140,60 @@ def run(cx):
         if sorted(lim) != ["2x RecvRateSet::data_limited_update", "2x RecvRateSet::rate_limited_update", "RecvRateSet::loss_increase_update"]:
             inst.violation(hf.path, "recv_limit", "recv_limit is computed as %s; expected 2*X_recv_set except after a loss increase" % sorted(lim))
 
+
+    with cx.instance("C14.g", "T2 PAIR (stores) + T7", "the quantities the bounds are stated over are actually stored: X_Bps is re-evaluated from the current R and p before the equation-phase rate is set; update_rtt/update_rto store the new estimate; s_to_ms = round(max(1000 v, 0)); both feedback and expiry re-arm the no-feedback timer at now + RTO", floor=8) as inst:
+        hf = R.body("SendRateComp::handle_feedback")
+        tcp_w = [(l, show(hf.rvalue_expr(n["rv"])) if n["k"] == "assign" else show(hf.call_expr(n))) for l, n, ps in hf.field_writes(r"arg1\.mode@ThroughputEqn\.0\.send_rate_tcp")]
+        eq_rate = [l for l, n, ps in hf.field_writes(r"arg1\.send_rate") if n["k"] == "assign" and re.fullmatch(r"Ord::max\(Ord::min\(arg1\.mode@ThroughputEqn\.0\.send_rate_tcp,var\d+\),.*MINIMUM_RATE\)", show(hf.rvalue_expr(n["rv"])))]
+        for l, v in tcp_w:
+            inst.site(hf, l, "X_Bps = " + v[:120])
+            if not re.fullmatch(r"send_rate::eval_tcp_throughput\(SendRateComp::update_rtt\(arg1,send_rate::ms_to_s\(arg3\.rtt_ms\)\)\.0,arg3\.loss_rate\)", v):
+                inst.violation(hf.path, "X_Bps", "the equation-phase rate is computed as `%s`, expected eval_tcp_throughput(current R, reported p)" % v[:160], at=hf.span_at(l))
+        if len(eq_rate) != 1 or not tcp_w:
+            inst.violation(hf.path, "equation phase", "expected one equation-phase rate write and a store of X_Bps before it (anchor): %d / %d" % (len(eq_rate), len(tcp_w)))
+        else:
+            cx.preceded_by(inst, hf, [(eq_rate[0], "send_rate = max(min(X_Bps, limit), s/64)")], [l for l, _ in tcp_w], "rate set from a stale X_Bps", "send_rate_tcp = eval_tcp_throughput(R, p)")
+        ur = R.body("SendRateComp::update_rtt")
+        for fld, want in (("rtt_s", r"Some\{var\d+\}"), ("rtt_ms", r"Some\{send_rate::s_to_ms\(var\d+\)\}")):
+            ws = [(l, show(ur.rvalue_expr(n["rv"]))) for l, n, ps in ur.field_writes(r"arg1\." + fld) if n["k"] == "assign"]
+            for l, v in ws:
+                inst.site(ur, l, "%s = %s" % (fld, v))
+                if not re.fullmatch(want, v):
+                    inst.violation(ur.path, fld + " store", "update_rtt stores %s = `%s`" % (fld, v), at=ur.span_at(l))
+            cx.followed_by(inst, ur, [(Loc(0, -1), "entry of update_rtt")], [l for l, _ in ws], fld + " not stored", "self.%s = Some(new estimate)" % fld)
+        # the stored estimate is the filtered value that is also returned
+        ret = show(ur.local_expr(0))
+        inst.site(ur, None, "update_rtt returns " + ret[:80])
+        if not re.fullmatch(r"tuple\{(var\d+),send_rate::s_to_ms\(\1\)\}", ret):
+            inst.violation(ur.path, "return", "update_rtt returns `%s`, expected (new R, s_to_ms(new R))" % ret)
+        uo = R.body("SendRateComp::update_rto")
+        ws = [(l, show(uo.rvalue_expr(n["rv"]))) for l, n, ps in uo.field_writes(r"arg1\.rto_ms") if n["k"] == "assign"]
+        for l, v in ws:
+            inst.site(uo, l, "rto_ms = " + v[:60])
+            if not re.fullmatch(r"Some\{send_rate::s_to_ms\(f64::max\(.*\)\)\}", v):
+                inst.violation(uo.path, "rto_ms store", "update_rto stores rto_ms = `%s`" % v, at=uo.span_at(l))
+        cx.followed_by(inst, uo, [(Loc(0, -1), "entry of update_rto")], [l for l, _ in ws], "rto_ms not stored", "self.rto_ms = Some(s_to_ms(rto))")
+        sm = R.body(SR + "s_to_ms")
+        got = show(sm.local_expr(0))
+        inst.site(sm, None, "s_to_ms = " + got)
+        if got not in ("cast<u64>(f64::round(f64::max(mul(1000.0,arg1),0.0)))", "cast<u64>(f64::round(f64::max(0.0,mul(1000.0,arg1))))", "cast<u64>(f64::round(f64::max(mul(arg1,1000.0),0.0)))"):
+            inst.violation(sm.path, "s_to_ms", "s_to_ms is `%s`, expected round(max(1000*v, 0)) as u64" % got)
+        ms = R.body(SR + "ms_to_s")
+        got = show(ms.local_expr(0))
+        inst.site(ms, None, "ms_to_s = " + got)
+        if got != "div(cast<f64>(arg1),1000.0)":
+            inst.violation(ms.path, "ms_to_s", "ms_to_s is `%s`, expected v as f64 / 1000" % got)
+        # re-arming (RFC 5348 4.3 step 6, 4.4 step 3)
+        for fn, rx in (("SendRateComp::handle_feedback", r"Some\{add\((arg2,send_rate::s_to_ms\(SendRateComp::update_rto\(.*\)\)|send_rate::s_to_ms\(SendRateComp::update_rto\(.*\)\),arg2)\)\}"),
+                       ("SendRateComp::nofeedback_expired", r"Some\{add\((arg2,send_rate::s_to_ms\(SendRateComp::update_rto\(.*\)\)|send_rate::s_to_ms\(SendRateComp::update_rto\(.*\)\),arg2)\)\}")):
+            b = R.body(fn)
+            ws = [(l, show(b.rvalue_expr(n["rv"]))) for l, n, ps in b.field_writes(r"arg1\.nofeedback_exp_ms") if n["k"] == "assign"]
+            for l, v in ws:
+                inst.site(b, l, "nofeedback_exp_ms = " + v[:70])
+                if not re.fullmatch(rx, v):
+                    inst.violation(b.path, "timer value", "the no-feedback timer is re-armed at `%s`, expected now + s_to_ms(RTO)" % v[:140], at=b.span_at(l))
+            cx.followed_by(inst, b, [(Loc(0, -1), "entry of " + fn.split("::")[-1])], [l for l, _ in ws], "no-feedback timer not re-armed", "nofeedback_exp_ms = Some(now + RTO)")
+
     from props.C13 import ceiling_clamp
     ceiling_clamp(cx, "C14.d")
     from props.shared import ack_processing_presence
@@ -169,6 +223,21 @@ SELFTEST = [
     {"name": "drop the floor on the throughput-equation rate",
      "edits": [{"file": "src/half_connection/send_rate.rs", "old": "self.send_rate = state.send_rate_tcp.min(recv_limit).max(MINIMUM_RATE);", "new": "self.send_rate = state.send_rate_tcp.min(recv_limit);"}],
      "expect": ["C14.c"]},
+    {"name": "X_Bps not re-evaluated on feedback (stale equation rate)",
+     "edits": [{"file": "src/half_connection/send_rate.rs", "old": "                state.send_rate_tcp = eval_tcp_throughput(rtt_s, loss_rate);\n", "new": ""}],
+     "expect": ["C14.g"]},
+    {"name": "update_rtt forgets to store the estimate",
+     "edits": [{"file": "src/half_connection/send_rate.rs", "old": "        self.rtt_s = Some(new_rtt_s);\n", "new": ""}],
+     "expect": ["C14.g"]},
+    {"name": "update_rto forgets to store rto_ms",
+     "edits": [{"file": "src/half_connection/send_rate.rs", "old": "        self.rto_ms = Some(s_to_ms(rto_s));\n", "new": ""}],
+     "expect": ["C14.g"]},
+    {"name": "s_to_ms clamps with min instead of max",
+     "edits": [{"file": "src/half_connection/send_rate.rs", "old": "(v_s * 1000.0).max(0.0).round() as u64", "new": "(v_s * 1000.0).min(0.0).round() as u64"}],
+     "expect": ["C14.g"]},
+    {"name": "expiry does not re-arm the no-feedback timer",
+     "edits": [{"file": "src/half_connection/send_rate.rs", "old": "        let rto_s = self.update_rto(self.rtt_s.unwrap_or(0.0), self.send_rate);\n\n        self.nofeedback_exp_ms = Some(now_ms + s_to_ms(rto_s));\n", "new": "        let _rto_s = self.update_rto(self.rtt_s.unwrap_or(0.0), self.send_rate);\n\n"}],
+     "expect": ["C14.g"]},
     {"name": "benign: reorder commutative operands of the equation",
      "edits": [{"file": "src/half_connection/send_rate.rs", "old": "(p*2.0/3.0).sqrt() + 12.0*(p*3.0/8.0).sqrt()*p*(1.0 + 32.0*p*p)", "new": "12.0*p*(3.0*p/8.0).sqrt()*(32.0*p*p + 1.0) + (2.0*p/3.0).sqrt()"}],
      "expect": []},
